@@ -55,7 +55,7 @@ def same_value(a, b):
     return type(a) == type(b) and a == b
 
 
-def exercise(V, scheme, nfff, target, proj, tmc, obs_kinds, repeat=False, unsorted_grid=False):
+def exercise(V, scheme, nfff, target, proj, tmc, obs_kinds, repeat=False, unsorted_grid=False, drop=None):
     """real Runner + get_result (numerics stubbed); returns list of (label, ok)."""
     import eko.matchings as em
     import yadism.log
@@ -77,6 +77,9 @@ def exercise(V, scheme, nfff, target, proj, tmc, obs_kinds, repeat=False, unsort
         for k in obs_kinds:
             if k.startswith("XS"):
                 o["observables"][k] = [dict(x=0.1, Q2=V["Q2"], y=0.4)]
+    if drop is not None:
+        # a card that omits one optional key (yadism supplies a default) is as admissible as a complete one
+        (t if drop[0] == "theory" else o).pop(drop[1])
     snap_t, snap_o = snapshot(t), snapshot(o)
 
     def no_sv(self, ker_orders, nf):
@@ -114,7 +117,7 @@ def exercise(V, scheme, nfff, target, proj, tmc, obs_kinds, repeat=False, unsort
                         and bool(out["xgrid"]["log"]) == o["interpolation_is_log"]
                         and out["polynomial_degree"] == o["interpolation_polynomial_degree"]))
             res.append(("output pids are the flavour basis", list(out["pids"]) == list(br.flavor_basis_pids)))
-            res.append(("output projectilePID matches the projectile", out["projectilePID"] == PROJ[proj]))
+            res.append(("output projectilePID matches the projectile", out["projectilePID"] == PROJ[o.get("ProjectileDIS", "electron")]))
             for k in obs_kinds:
                 res.append((f"output has one result per requested point [{k}]", len(out[k]) == len(o["observables"][k])))
     return res
@@ -123,9 +126,9 @@ def exercise(V, scheme, nfff, target, proj, tmc, obs_kinds, repeat=False, unsort
 def replay_exercise(args):
     try:
         res = exercise(args["values"], args["scheme"], args["nfff"], args["target"], args["proj"], args["tmc"], args["obs"], args.get("repeat", False),
-                       args.get("unsorted_grid", False))
-    except ValueError as e:
-        return False, f"rejected: {e}"
+                       args.get("unsorted_grid", False), drop=tuple(args["drop"]) if args.get("drop") else None)
+    except (ValueError, KeyError) as e:
+        return False, f"rejected: {e!r}"
     bad = [l for l, ok in res if not ok]
     return (True, f"{args['scheme']}/{args['target']}: {bad}") if bad else (False, "all clauses hold")
 
@@ -150,7 +153,8 @@ def run(chk, only=None):
     chk.bounds = {"CrossHair": "FNS/FONLLParts/target as enum indices, NfFF/PTO/PTODIS/QED unbounded ints, presence flags of every optional "
                   "key; one harness per option group with the other groups at their defaults; floats concrete",
                   "Engine A": "schemes x NfFF x 8 target spellings x projectile x TMC, symbolic masses/thresholds/Q2 (all paths), "
-                  "SF and XS observables, repeated construction from the same dicts"}
+                  "SF and XS observables, repeated construction from the same dicts; plus one cell per top-level card key with that key omitted "
+                  "(keys whose omission is rejected are skipped)"}
     chk.stub("Engine A: quadrature (conv.convolve_vector / conv.convolution) -> zeros, scale variations -> none, np.digitize -> documented meaning "
              "(the numbers are not the subject; mutation by eko/rich internals is outside)")
     # ---- Engine B ----
@@ -217,6 +221,44 @@ def run(chk, only=None):
                             chk.report(f"runner:{lab}", f"{cname}: {lab} -- violated", "exercise",
                                        dict(args, values=c06.vals(ctx, None)))
         chk.section("runner_cells", n=len(cells))
+    # ---- Engine A: cards that omit one optional key ----
+    if only in (None, "optional"):
+        with Ctx(chk.seed) as ctx0:
+            t0, o0 = c06.cards(c06.sym_values(ctx0), "ZM-VFNS", 4, pto=0)
+        optional, required = [], []
+        for card, k in [("theory", k) for k in t0] + [("observables", k) for k in o0]:
+            cname = f"runner:optional-key:{card}.{k}"
+            if not chk.mine(cname):
+                continue
+            proj = "electron" if k == "ProjectileDIS" else "positron"
+            with Ctx(chk.seed) as ctx, stubs.cf_stubs():
+                def body(card=card, k=k, proj=proj):
+                    V = c06.sym_values(ctx)
+                    return exercise(V, "ZM-VFNS", 4, {"Z": 1, "A": 2}, proj, 0, ["F2_light", "XSHERANC_total"], drop=(card, k))
+
+                V0 = c06.sym_values(ctx)
+                ctx.domain += c06.monotone(V0)
+                paths = explore.Explorer(ctx, max_paths=2 if chk.tier == "quick" else 16, timeout_ms=3000).run(body)
+                chk.paths += len(paths)
+                if not any(p.kind == "ok" for p in paths):
+                    required.append(f"{card}.{k}")
+                    continue
+                optional.append(f"{card}.{k}")
+                for p in paths:
+                    if p.kind != "ok":
+                        continue
+                    for lab, ok in p.value:
+                        chk.obligations += 1
+                        chk.evaluations += 1
+                        chk.nontrivial.add(cname)
+                        if ok:
+                            chk.discharged += 1
+                        else:
+                            ctx.assign = dict(p.assign)
+                            chk.report(f"runner:optional:{lab}", f"{cname}: {lab} -- violated", "exercise",
+                                       dict(scheme="ZM-VFNS", nfff=4, target={"Z": 1, "A": 2}, proj=proj, tmc=0, obs=["F2_light", "XSHERANC_total"],
+                                            drop=[card, k], values=c06.vals(ctx, None)))
+        chk.section("optional_keys", optional=optional, required_or_rejected=len(required))
     return chk.finish(
         explanation="CrossHair (symbolic ints/bools/enum indices, all paths) confirms for each option group of compatibility.update: the "
         "caller's dicts and nested objects are untouched, the upgrade returns new objects with the documented content, a second "
